@@ -362,13 +362,21 @@ def run_case(case, rec):
     # text round trip
     snap = mon2d.snapshot(b)
     text = str(b)
-    _cur["from_string_expect"] = (text, snap)
-    try:
-        common.BpSeq.from_string(text)
-    except Exception:
-        pass
-    finally:
-        _cur["from_string_expect"] = None
+    variants = [text]
+    if h % 4 == 3:
+        # the same lines as other programs and editors leave them: Windows line endings, trailing blanks / tabs,
+        # no final newline, blank lines at the end
+        lines = text.splitlines()
+        variants += ["\r\n".join(lines) + "\r\n", "\n".join(l + ("  " if i % 2 else "\t") for i, l in enumerate(lines)) + "\n", "\n".join(lines), "\n".join(lines) + "\n\n\n"]
+        rec.count("note:bpseq-text-variants")
+    for tv in variants:
+        _cur["from_string_expect"] = (tv, snap)
+        try:
+            common.BpSeq.from_string(tv)
+        except Exception:
+            pass
+        finally:
+            _cur["from_string_expect"] = None
 
 
 def classify(v):
